@@ -865,6 +865,22 @@ class StyleDocGen:
                 self.put(et.SubElement(r, q(NS_TT, "style")), rng.randint(1, 3), in_style=True)
             if rng.random() < 0.5: self.put(r, self.count())
             self.refs(r, 0.4)
+            if rng.random() < 0.15:
+                # the shape of the repaired finding seq-region-break-hides-nested-style: a sequential region, a child that never ends (outside
+                # the content model of region), and nested styles after it (and, when non-content children are interleaved, one of them between)
+                r.set("timeContainer", "seq")
+                c = et.Element(q(NS_TT, rng.choice(["p", "span", "div"])))
+                if _local(c) == "div": et.SubElement(c, q(NS_TT, "br"))
+                else: c.text = self.text()
+                i = rng.randint(0, len(r)); r.insert(i, c)
+                if rng.random() < 0.7:
+                    # a child that is no nested style right after it: the reader used to leave the loop there
+                    b = rng.choice([lambda: et.Element(q(NS_TT, "metadata")), lambda: et.Comment(" c "), lambda: et.Element(q(NS_FOREIGN, "x")),
+                                    lambda: et.Element(q(NS_TT, "p")), lambda: et.Element(q(NS_TT, "set"), {q(NS_TTS, "opacity"): "0.5"})])()
+                    r.insert(i + 1, b); self.flags.add("seq-region-nested-style-hidden")
+                for _ in range(rng.choice([1, 1, 2])):
+                    self.put(et.SubElement(r, q(NS_TT, "style")), rng.randint(1, 2), in_style=True)
+                self.flags.add("seq-region-nested-style")
         body = et.SubElement(tt, q(NS_TT, "body")); self.content(body, "body", 0)
         if rng.random() < self.p_noncontent:
             self.noncontent = NonContentGen(rng, self.text).interleave(tt)
